@@ -310,7 +310,10 @@ fn c06_accessors(rep: &mut Report, r: &mut Rng, n: u64) {
         rep.eval();
         let opt = *r.pick(&opts);
         let k = r.usize_below(5);
-        let vals: Vec<u32> = (0..k).map(|_| (r.next_u64() >> r.below(64)) as u32).collect();
+        // random widths, or numbers that mean something to some option (protocol defaults: Max-Age 60, ports
+        // 5683 / 5684, content formats, block sizes ...), repeated values included
+        let pool = [0u32, 1, 12, 14, 40, 42, 50, 60, 60, 60, 61, 255, 256, 1024, 5683, 5684, 65535, 65536, 86400, 1 << 24, u32::MAX];
+        let vals: Vec<u32> = (0..k).map(|_| if r.bool() { (r.next_u64() >> r.below(64)) as u32 } else { *r.pick(&pool) }).collect();
         let res = guard(|| {
             let mut p = crate::ctx::context_packet();
             // something else is already there
